@@ -86,28 +86,29 @@ type OpResult struct {
 
 // Runtime is an instantiated world.
 type Runtime struct {
-	W            *World
-	Sim          *simrt.Sim
-	St           *core.Stats
-	Parties      []Party // world parties + parties derived by generators
-	Tokens       []Token
-	Log          []ExecRec
-	Online       []Online
-	Results      []*OpResult
-	execs        []int
-	nerr         int
-	funcs        []*argmapper.Func
-	raw          []interface{}
-	args         []argmapper.Arg
-	ArgTok       []uint64 // token minted for each named/typed ArgSpec (0 otherwise)
-	curOp        [8]int   // per thread: operation being executed (-1 none)
-	FaultsFired  map[string]int
-	GenCalls     int
-	derived      map[string]int
-	derivedOf    []int
-	FilterCalls  int
-	NilStructOps map[int][]int // op -> parties that returned a nil struct during it
-	InstErr      error
+	W             *World
+	Sim           *simrt.Sim
+	St            *core.Stats
+	Parties       []Party // world parties + parties derived by generators
+	Tokens        []Token
+	Log           []ExecRec
+	Online        []Online
+	Results       []*OpResult
+	execs         []int
+	nerr          int
+	funcs         []*argmapper.Func
+	raw           []interface{}
+	args          []argmapper.Arg
+	ArgTok        []uint64 // token minted for each named/typed ArgSpec (0 otherwise)
+	curOp         [8]int   // per thread: operation being executed (-1 none)
+	FaultsFired   map[string]int
+	GenCalls      int
+	derived       map[string]int
+	derivedOf     []int
+	defaultSlices [][]argmapper.Arg
+	FilterCalls   int
+	NilStructOps  map[int][]int // op -> parties that returned a nil struct during it
+	InstErr       error
 }
 
 var errType = reflect.TypeOf((*error)(nil)).Elem()
@@ -425,10 +426,17 @@ func (rt *Runtime) makeGen(ai int, g *Gen) argmapper.ConverterGenFunc {
 // buildParty creates the Go function and the *argmapper.Func of party pi.
 func (rt *Runtime) buildParty(pi int) error {
 	p := rt.Parties[pi]
-	var opts []argmapper.Arg
+	opts := make([]argmapper.Arg, 0, len(p.Defaults)+5) // spare capacity, as append leaves it
 	for _, d := range p.Defaults {
 		opts = append(opts, rt.args[d])
 	}
+	if q := p.SharePrefixOf - 1; q >= 0 && q < pi && q < len(rt.defaultSlices) && len(rt.defaultSlices[q]) >= len(p.Defaults) && !p.Once {
+		opts = rt.defaultSlices[q][:len(p.Defaults)]
+	}
+	for len(rt.defaultSlices) <= pi {
+		rt.defaultSlices = append(rt.defaultSlices, nil)
+	}
+	rt.defaultSlices[pi] = opts
 	if p.Once {
 		opts = append(opts, argmapper.FuncOnce())
 	}
@@ -495,7 +503,8 @@ func (rt *Runtime) buildParty(pi int) error {
 					dst = out.TypedSubtype(Types[s.Type], s.Sub)
 				}
 				if dst == nil {
-					panic(&simrt.Infra{Msg: fmt.Sprintf("built party %d: output slot %d not found in its value set", pi, i)})
+					rt.Online = append(rt.Online, Online{Class: "built-output-lookup-failed", Op: rt.curOp[rt.thread()], Party: pi, Slot: i, Detail: fmt.Sprintf("built party %d: the documented lookup of output value %s finds nothing in its own value set", pi, s.Label)})
+					continue
 				}
 				dst.Value = outs[i]
 			}
@@ -763,6 +772,9 @@ func (rt *Runtime) checkOnline(rec *ExecRec, p Party) {
 					}
 				}
 			}
+			if op >= 0 && op < len(rt.W.Ops) && rt.W.Ops[op].Kind == OpCallRedef && rt.W.Ops[op].ZeroInputs {
+				ok = true // the caller handed zero values to the redefined function
+			}
 			if !ok {
 				fire("invented-value", fmt.Sprintf("party %d (%s) exec %d: parameter %s received the zero value (no supplied or produced value)", rec.Party, p, rec.N, slot))
 			}
@@ -828,7 +840,8 @@ func (rt *Runtime) describe(tk Token) string {
 // ---- operations ----
 
 func (rt *Runtime) argList(ix []int) []argmapper.Arg {
-	out := make([]argmapper.Arg, 0, len(ix))
+	// callers usually build option slices with append: leave spare capacity
+	out := make([]argmapper.Arg, 0, len(ix)+4)
 	for _, i := range ix {
 		out = append(out, rt.args[i])
 	}
@@ -948,7 +961,10 @@ func (rt *Runtime) RunOp(i int) *OpResult {
 				if IsIface(l.Type) {
 					l.Type = Implementors(l.Type)[0]
 				}
-				id := rt.newToken(Token{Kind: TokSupplied, Label: l, Arg: -1, Op: i})
+				id := uint64(0)
+				if !o.ZeroInputs {
+					id = rt.newToken(Token{Kind: TokSupplied, Label: l, Arg: -1, Op: i})
+				}
 				res.Fresh = append(res.Fresh, id)
 				t := l.Type
 				v := MakeValue(t, id)
